@@ -242,7 +242,7 @@ theorem AI_scanEnd {c : Cfg} {s s' : State} {st k : Nat} (h : AI c s)
       · next hpd =>
         have hpd' : s1.pdone = false := by simpa using hpd
         simp only [Option.some.injEq] at hs; subst hs
-        have hN : AI c (scanNew s1 x) := by
+        have hN : AI c (scanNew c s1 x) := by
           unfold scanNew; split
           · exact AI_congr h1 rfl rfl rfl rfl rfl rfl rfl rfl
           · next hx' =>
@@ -250,7 +250,7 @@ theorem AI_scanEnd {c : Cfg} {s s' : State} {st k : Nat} (h : AI c s)
             refine ⟨a1, a2, a3, a4, ?_, a6, ?_, a8⟩
             · intro j hj
               rcases List.mem_cons.1 hj with e | hm
-              · subst e; have := a2 hpd'; show headOffs c s1 ≤ x; omega
+              · subst e; show headOffs c s1 ≤ x; omega
               · exact a5 j hm
             · intro j hj
               rcases List.mem_cons.1 hj with e | hm
